@@ -141,7 +141,7 @@ func init() {
 		Rule: "cases = the C02 merge generator (incl. forced zero-survivor merges, zero-document inputs, single input, everything survives); oracle = exact comparison of DocumentNumbers() with the model map, Count()==survivors, and per surviving old document: stored fields at the new number and DocsMatchingTerms(_id)=={new}; " +
 			"non-trivial = >=2 inputs, >=1 dropped and >=1 surviving document; distinct = hash of (input model dumps, modes, bitmaps)",
 		Assumptions: InputContract,
-		Phases:      []runner.Phase{{Name: "map", Cases: cases(1500, 40000), Run: c03Run}},
+		Phases:      []runner.Phase{{Name: "map", Cases: cases(12000, 300000), Run: c03Run}},
 		Floors: func(string) map[string]int64 {
 			return map[string]int64{"zero_survivor_merges": 1, "zero_document_inputs": 2, "survivors_content_checked": 1000}
 		},
